@@ -2,7 +2,7 @@
 (***************************************************************************)
 (* Batched trace validation for Rest (code -> spec).  TRACE_FILE holds     *)
 (*   [ {bindings:[{verb,pid,body}..], required:[leaf..], numeric, rtype,   *)
-(*      events:[ {ev:"call",  req:{leaf:[..] for every leaf}}              *)
+(*      events:[ {ev:"call",  req:{leaf:[..] for every set leaf}}          *)
 (*               {ev:"http",  verb, path:[seg..], query:{key:[..]},        *)
 (*                            hasBody, body:{key:[..]}}                    *)
 (*               {ev:"reply", reply:{name,kind,big_n,unknown}}             *)
@@ -34,7 +34,7 @@ BindingsOf(t) == [i \in 1..Len(Traces[t].bindings) |->
                     [verb |-> Traces[t].bindings[i].verb, pid |-> Traces[t].bindings[i].pid,
                      body |-> Traces[t].bindings[i].body]]
 RequiredOf(t) == {Traces[t].required[i] : i \in 1..Len(Traces[t].required)}
-ResetCall == /\ draft' = Unset /\ di' = 1 /\ req' = Unset /\ sel' = 0 /\ path' = <<>> /\ hasBody' = FALSE
+ResetCall == /\ di' = 1 /\ req' = Unset /\ sel' = 0 /\ path' = <<>> /\ hasBody' = FALSE
              /\ bodyL' = EmptyMap /\ queryL' = EmptyMap /\ dflt' = {} /\ msg' = NoMsg /\ http' = <<>>
              /\ reply' = NoReply /\ result' = NoResult /\ outcome' = ""
 ResetFor(t) == /\ bindings' = BindingsOf(t) /\ required' = RequiredOf(t) /\ numeric' = Traces[t].numeric
@@ -42,7 +42,7 @@ ResetFor(t) == /\ bindings' = BindingsOf(t) /\ required' = RequiredOf(t) /\ nume
 TInit == /\ tid = 1 /\ l = 1 /\ bad = FALSE /\ TLCSet(1, 0) /\ TLCSet(2, <<0, 0>>) /\ TLCSet(3, 0)
          /\ bindings = BindingsOf(1) /\ required = RequiredOf(1) /\ numeric = Traces[1].numeric
          /\ rtype = Traces[1].rtype /\ phase = "idle" /\ calls = 0 /\ log = <<>>
-         /\ draft = Unset /\ di = 1 /\ req = Unset /\ sel = 0 /\ path = <<>> /\ hasBody = FALSE
+         /\ di = 1 /\ req = Unset /\ sel = 0 /\ path = <<>> /\ hasBody = FALSE
          /\ bodyL = EmptyMap /\ queryL = EmptyMap /\ dflt = {} /\ msg = NoMsg /\ http = <<>>
          /\ reply = NoReply /\ result = NoResult /\ outcome = ""
 
@@ -52,7 +52,7 @@ ResEq(e) == /\ e.rtype = rtype /\ result.name = e.result.name /\ result.kind = e
             /\ result.big_n = e.result.big_n
 
 IsEvent(e) == tid <= N /\ l <= Len(Ev) /\ Ev[l].ev = e /\ l' = l + 1 /\ tid' = tid /\ bad' = bad
-TCall   == IsEvent("call") /\ Invoke([x \in Leaves |-> Ev[l].req[x]])
+TCall   == IsEvent("call") /\ Invoke([x \in Leaves |-> IF x \in DOMAIN Ev[l].req THEN Ev[l].req[x] ELSE <<>>])
 TStep   == /\ tid <= N /\ l' = l /\ tid' = tid /\ bad' = bad
            /\ (Transport \/ ParseReply)
 THttp   == IsEvent("http") /\ MsgEq(msg, Ev[l]) /\ SendHttp
